@@ -5,38 +5,36 @@ Import ListNotations.
 Local Open Scope N_scope.
 
 (* ---- PubKeyFromCertChain --------------------------------------------------------------------- *)
-Lemma pubkey_from_chain_sound : forall sf chain pub,
-  pubkey_from_chain sf chain = inl pub ->
+Lemma pubkey_from_chain_sound : forall chain pub,
+  pubkey_from_chain chain = inl pub ->
   exists c id r,
     chain = [c] /\ pub = NPub id /\
     find_libp2p (c_exts c) = Some (XSigned (NPub id) (NSig id (NCat TLSPREFIX (certpub (c_key c))) r)) /\
     c_time_ok c = true /\ existsb other_critical (c_exts c) = false /\
-    (sf = true -> self_signed c = true).
+    self_signed c = true.
 Proof.
-  intros sf chain pub H. unfold pubkey_from_chain in H.
+  intros chain pub H. unfold pubkey_from_chain in H.
   destruct chain as [|c [|]]; try discriminate.
   destruct (find_libp2p (c_exts c)) as [v|] eqn:Ef; [|discriminate].
-  destruct (cert_verify sf c) eqn:Ev; cbn [negb] in H; [|discriminate].
+  destruct (cert_verify c) eqn:Ev; cbn [negb] in H; [|discriminate].
   destruct v as [p sg|]; [|discriminate].
   destruct p; cbn [id_of_key] in H; try discriminate.
   destruct (sig_verify (NPub k) (NCat TLSPREFIX (certpub (c_key c))) sg) eqn:Es; [|discriminate].
   inversion H; subst. apply sig_verify_inv in Es. destruct Es as [r ->].
   unfold cert_verify in Ev. apply andb_true_iff in Ev. destruct Ev as [Ev E3].
-  apply andb_true_iff in Ev. destruct Ev as [E1 E2]. apply negb_true_iff in E3.
+  apply andb_true_iff in Ev. destruct Ev as [E1 E2]. apply negb_true_iff in E2.
   exists c, k, r. repeat split; try assumption; try reflexivity.
-  intros ->. cbn in E1. exact E1.
 Qed.
 
-Lemma certifies_of_sound : forall sf chain pub,
-  pubkey_from_chain sf chain = inl pub ->
-  exists id, pub = NPub id /\ certifies chain id = true /\
-             (sf = true -> self_signature_defect chain = 0%Z).
+Lemma certifies_of_sound : forall chain pub,
+  pubkey_from_chain chain = inl pub ->
+  exists id, pub = NPub id /\ certifies chain id = true /\ self_signature_defect chain = 0%Z.
 Proof.
-  intros sf chain pub H. apply pubkey_from_chain_sound in H.
+  intros chain pub H. apply pubkey_from_chain_sound in H.
   destruct H as [c [id [r [-> [-> [Hf [_ [_ Hs]]]]]]]]. exists id. split; [reflexivity|]. split.
   - unfold certifies. rewrite Hf. cbn [nt_eqb]. rewrite !N.eqb_refl. cbn [andb].
     apply nt_eqb_refl.
-  - intros E. specialize (Hs E). unfold self_signed in Hs. apply andb_true_iff in Hs. destruct Hs as [H1 H2].
+  - unfold self_signed in Hs. apply andb_true_iff in Hs. destruct Hs as [H1 H2].
     unfold self_signature_defect. rewrite H1, H2. reflexivity.
 Qed.
 
@@ -53,17 +51,17 @@ Proof.
 Qed.
 
 (* ---- the VerifyPeerCertificate callback -------------------------------------------------------- *)
-Lemma verify_peer_sound : forall sf remote raw pub,
-  verify_peer sf remote raw = inl pub ->
+Lemma verify_peer_sound : forall remote raw pub,
+  verify_peer remote raw = inl pub ->
   exists id, pub = NPub id /\ certifies raw id = true /\
-             (sf = true -> self_signature_defect raw = 0%Z) /\
+             self_signature_defect raw = 0%Z /\
              forallb parse_ok raw = true /\
              (forall r, remote = Some r -> r = id).
 Proof.
-  intros sf remote raw pub H. unfold verify_peer in H.
+  intros remote raw pub H. unfold verify_peer in H.
   destruct (forallb parse_ok raw) eqn:Ep; cbn [negb] in H; [|discriminate].
-  destruct (pubkey_from_chain sf raw) as [pk|e] eqn:Ek; [|discriminate].
-  destruct (certifies_of_sound _ _ _ Ek) as [id [-> [Hc Hs]]].
+  destruct (pubkey_from_chain raw) as [pk|e] eqn:Ek; [|discriminate].
+  destruct (certifies_of_sound _ _ Ek) as [id [-> [Hc Hs]]].
   destruct remote as [r|].
   - cbn [id_of_key] in H. destruct (r =? id) eqn:Er; [|discriminate]. inversion H; subst.
     apply N.eqb_eq in Er. exists id. repeat split; try assumption. intros r' E. inversion E; subst. reflexivity.
@@ -71,16 +69,16 @@ Proof.
 Qed.
 
 (* ---- the handshake ---------------------------------------------------------------------------------- *)
-Lemma tls_endpoint_done : forall sf me other ed pf id key,
-  tls_endpoint sf me other ed pf = TDone id key ->
+Lemma tls_endpoint_done : forall me other ed pf id key,
+  tls_endpoint me other ed pf = TDone id key ->
   ed = false /\ pf = false /\ key = NPub id /\ t_holds other = true /\
   certifies (t_chain other) id = true /\
-  (sf = true -> self_signature_defect (t_chain other) = 0%Z) /\
+  self_signature_defect (t_chain other) = 0%Z /\
   (forall r, t_expect me = Some r -> r = id).
 Proof.
-  intros sf me other ed pf id key H. unfold tls_endpoint in H.
+  intros me other ed pf id key H. unfold tls_endpoint in H.
   destruct ed; [discriminate|]. destruct pf; [discriminate|]. cbn [orb] in H.
-  destruct (verify_peer sf (t_expect me) (t_chain other)) as [pub|e] eqn:Ev; [|discriminate].
+  destruct (verify_peer (t_expect me) (t_chain other)) as [pub|e] eqn:Ev; [|discriminate].
   destruct (t_holds other) eqn:Eh; cbn [negb] in H; [|discriminate].
   apply verify_peer_sound in Ev. destruct Ev as [id' [-> [Hc [Hs [_ He]]]]].
   cbn [id_of_key] in H. inversion H; subst. repeat split; assumption.
@@ -94,16 +92,15 @@ Qed.
 Definition presents_only_own (sd : tside) (oid : Z) : Prop :=
   forall k, certifies (t_chain sd) k = true -> t_holds sd = true -> Z.of_N k = oid.
 
-Lemma judge_tls_side_model : forall sf me other oid ed pf ed_mon wp other_res,
+Lemma judge_tls_side_model : forall me other oid ed pf ed_mon wp other_res,
   presents_only_own other oid ->
-  (sf = true \/ self_signature_defect (t_chain other) = 0%Z) ->
   (ed_mon = true -> ed = true) ->
-  judge_tls_side me other oid ed_mon (tobs_of (tls_endpoint sf me other ed pf) other_res wp) = [].
+  judge_tls_side me other oid ed_mon (tobs_of (tls_endpoint me other ed pf) other_res wp) = [].
 Proof.
-  intros sf me other oid ed pf ed_mon wp other_res Hown Hself Hed.
-  destruct (tls_endpoint sf me other ed pf) as [id key|c] eqn:E.
+  intros me other oid ed pf ed_mon wp other_res Hown Hed.
+  destruct (tls_endpoint me other ed pf) as [id key|c] eqn:E.
   2:{ reflexivity. }
-  apply tls_endpoint_done in E. destruct E as [-> [-> [-> [Hh [Hc [Hs He]]]]]].
+  apply tls_endpoint_done in E. destruct E as [-> [-> [-> [Hh [Hc [D He]]]]]].
   unfold judge_tls_side, tobs_of. cbn [to_cls to_rid to_rkid id_of_key].
   cbn [Z.eqb negb]. rewrite Z.eqb_refl. cbn [orelse].
   rewrite (Hown id Hc Hh). rewrite Z.eqb_refl. cbn [orelse].
@@ -116,7 +113,6 @@ Proof.
   destruct ed_mon. { specialize (Hed eq_refl). discriminate. }
   cbn [orelse]. rewrite Hh. cbn [orelse].
   unfold judge_chain. rewrite <- (Hown id Hc Hh). rewrite N2Z.id. rewrite Hc. cbn [negb].
-  assert (D : self_signature_defect (t_chain other) = 0%Z) by (destruct Hself as [->|D]; auto).
   rewrite D. reflexivity.
 Qed.
 
